@@ -8,7 +8,7 @@
    event table [evs] the reader uses; n over ALL truncation lengths. *)
 From Coq Require Import NArith List Bool.
 Import ListNotations.
-Require Import UV.C12.Model UV.C12.Proofs UV.C12.Lines.
+Require Import UV.C12.Model UV.C12.Proofs UV.C12.Lines UV.C12.TextModel UV.C12.TaskTxt UV.C12.Scan.
 
 (* MAIN: for EVERY truncation length the reader reports exactly the records that are completely present in
    the first n bytes (header and payload), each with exactly its payload, and then ends with end of data. *)
@@ -121,3 +121,65 @@ Theorem C12_text_files_partial : forall (E : Type) (parse : bytes -> option E) l
   else (es, false).
 Proof. exact @read_text_prefix. Qed.
 Print Assumptions C12_text_files_partial.
+
+From Coq Require Import String.
+(* ---- the task list (task.txt), model UV.C12.TextModel of read_task_txt_file with its sscanf conversions ---- *)
+(* MAIN (task list): for EVERY task.txt made of newline-terminated lines (whatever they contain) and EVERY truncation
+   length, what the reader builds from the first n bytes is what it builds from the copy cut at the last whole line:
+   no task or session is created from an incomplete line (fix 17db0a1). *)
+Theorem C12_task_txt_prefix : forall ls n, forallb no_nl ls = true ->
+  read_task_txt true (firstn n (text_of ls)) = read_task_txt true (text_of (fst (cut_lines ls n))).
+Proof. exact task_txt_prefix. Qed.
+Print Assumptions C12_task_txt_prefix.
+
+(* ... and those lines are an initial segment of the file's lines. *)
+Theorem C12_task_txt_prefix_lines : forall ls n, forallb no_nl ls = true ->
+  exists k, read_task_txt true (firstn n (text_of ls)) = read_lines true (map addnl (firstn k ls)).
+Proof. exact task_txt_prefix_lines. Qed.
+Print Assumptions C12_task_txt_prefix_lines.
+
+(* The reader before that fix: "FORK ... pid=101 ppid=100" cut after "ppid=10" created a task with parent 10. *)
+Theorem C12_task_txt_legacy_refuted :
+  forallb no_nl w_lines = true /\ (w_tcut < List.length (text_of w_lines))%nat /\
+  read_task_txt false (firstn w_tcut (text_of w_lines)) =
+    ([ESess 100 100 (B "a1b2c3d4e5f60718") (B "/fake/prog"); ETask 200 100 100; EFork 1200 101 10], true) /\
+  read_task_txt false (text_of (fst (cut_lines w_lines w_tcut))) =
+    ([ESess 100 100 (B "a1b2c3d4e5f60718") (B "/fake/prog"); ETask 200 100 100], true) /\
+  read_task_txt true (firstn w_tcut (text_of w_lines)) =
+    ([ESess 100 100 (B "a1b2c3d4e5f60718") (B "/fake/prog"); ETask 200 100 100], true).
+Proof. exact task_txt_legacy_refuted. Qed.
+Print Assumptions C12_task_txt_legacy_refuted.
+
+(* non-vacuity: the written lines are read back as the entries they were written from *)
+Theorem C12_task_txt_roundtrip_example : read_task_txt true (text_of w_lines) = (w_entries, true).
+Proof. exact task_txt_roundtrip_example. Qed.
+Print Assumptions C12_task_txt_roundtrip_example.
+
+(* ---- sscanf on a cut line (the conversions of the task list and map readers) ---- *)
+(* For EVERY text written piece by piece for a format (each piece well-formed for its directive and followed by a
+   byte that ends the conversion) and EVERY k: what sscanf converts from the first k bytes is exactly the values of
+   the complete pieces, plus the cut number / string if at least one of its bytes is there - nothing else.  Hence a
+   reader that demands all conversions takes a cut line exactly when the cut lies inside (or behind) the last
+   converting piece, and the value it then gets is the prefix of that piece (what C12_task_txt_legacy_refuted shows
+   for ppid; what read_session_map still does for a map line cut inside its path). *)
+Theorem C12_scan_prefix : forall segs k, wf_segs segs = true ->
+  scan (map fst segs) (firstn k (List.concat (map snd segs))) = prefix_vals segs k.
+Proof. exact scan_prefix. Qed.
+Print Assumptions C12_scan_prefix.
+
+Theorem C12_scan_full : forall segs, wf_segs segs = true ->
+  scan (map fst segs) (List.concat (map snd segs)) = flat_map seg_val segs.
+Proof. exact scan_full. Qed.
+Print Assumptions C12_scan_full.
+
+Theorem C12_scan_prefix_never_more : forall l k, List.length (prefix_vals l k) <= List.length (flat_map seg_val l).
+Proof. exact prefix_vals_length. Qed.
+Print Assumptions C12_scan_prefix_never_more.
+
+Theorem C12_scan_prefix_example :
+  wf_segs ex_segs = true /\ map fst ex_segs = task_fmt /\
+  prefix_vals ex_segs 39 = [SNum false 12; SNum false 345; SNum false 100; SNum false 4711] /\
+  prefix_vals ex_segs 37 = [SNum false 12; SNum false 345; SNum false 100; SNum false 47] /\
+  prefix_vals ex_segs 35 = [SNum false 12; SNum false 345; SNum false 100].
+Proof. exact scan_prefix_example. Qed.
+Print Assumptions C12_scan_prefix_example.
